@@ -11,7 +11,8 @@ import (
 // assignment to dependencies / outputs changes:
 //   - two dependencies in different packages declare an output of the same package-relative name and trade their inputs;
 //   - one dependency with two outputs whose contents trade places (cached and tagged no-cache);
-//   - two dependencies reached through two aliases trade their inputs.
+//   - two dependencies reached through two aliases trade their inputs;
+//   - a triangle: the dependant depends on a target directly and through a second target whose output stays the same.
 //
 // After the edit the dependant's output must equal a from-scratch build.
 func c01TradeScenarios(c *Ctx) {
@@ -56,6 +57,13 @@ func c01TradeScenarios(c *Ctx) {
 			s := &hist.Source{Files: map[string]hist.File{"n/in1.txt": {Content: x}, "n/in2.txt": {Content: y}}}
 			s.Targets = append(s.Targets, two([]string{"no-cache"}),
 				hist.Target{Pkg: "top", Name: "join", Deps: []string{"//n:two"}, Outputs: []string{"joined.txt"}, Command: traceStart + "\ncat ../n/o1.txt ../n/o2.txt > joined.txt"})
+			return s
+		}, "top/joined.txt"},
+		{"triangle: a direct dependency that is also reachable through another dependency whose output does not change", func(x, y string) *hist.Source {
+			s := &hist.Source{Files: map[string]hist.File{"a/in.txt": {Content: x}}}
+			s.Targets = append(s.Targets, gen("a", nil),
+				hist.Target{Pkg: "h", Name: "header", Deps: []string{"//a:gen"}, Outputs: []string{"header.txt"}, Command: traceStart + "\ntest -e ../a/out.txt && printf header > header.txt"},
+				hist.Target{Pkg: "top", Name: "join", Deps: []string{"//a:gen", "//h:header"}, Outputs: []string{"joined.txt"}, Command: traceStart + "\ncat ../h/header.txt ../a/out.txt > joined.txt"})
 			return s
 		}, "top/joined.txt"},
 		{"two dependencies reached through aliases trade their inputs", func(x, y string) *hist.Source {
